@@ -164,7 +164,21 @@ def run(ctx):
                 tys = [eb5.local_ty(a[1][0]) for a in g.args if a[0] in ("c", "m")]
                 if tys and INNER in tys[0]:
                     guarded.append(g)
-    ctx.instance("C19.5", "extend_predicates_from_properties: unconditional inserts in the loop=%d, insert-if-absent calls=%d, lookups guarding the insert=%d" % (len(in_loop), len(conditional), len(guarded)))
+    # the same discipline one level up: no function of the match compiler supplies a whole per-alias map only when the alias is absent
+    outer = []
+    for i5, b5 in sorted(F.bodies.items()):
+        if not i5.startswith("nervusdb_query::query_api::match_compile"):
+            continue
+        for c in b5.calls():
+            short = c.name.split("::")[-1]
+            tys = [b5.local_ty(a[1][0]) for a in c.args if a[0] in ("c", "m")]
+            if short in ("or_insert", "or_insert_with", "or_insert_with_key", "try_insert") and tys and "Entry<" in tys[0] and INNER in tys[0]:
+                outer.append(c)
+    for c in outer:
+        ctx.finding("C19.5", "inline-properties-not-authoritative:alias-map:%s" % (c.body.root or c.body.id).split("::")[-1],
+                    "a whole map of inline pattern properties is supplied for an alias only when the alias has no entry yet: WHERE-derived hints for that alias "
+                    "(pre-seeded) then replace the inline constraints instead of being merged with them", c.loc())
+    ctx.instance("C19.5", "extend_predicates_from_properties: unconditional inserts in the loop=%d, insert-if-absent calls=%d, lookups guarding the insert=%d; insert-if-absent of whole alias maps in the match compiler=%d" % (len(in_loop), len(conditional), len(guarded), len(outer)))
     ctx.oblige(bool(in_loop) and not conditional and not guarded, "C19.5", "inline-properties-not-authoritative",
                "an inline pattern property is added only when the key is absent: a conflicting WHERE equality on the same key (pre-seeded as a hint) silently "
                "drops the inline constraint for `WHERE p` but not for `WHERE NOT p` / `p IS NULL`", eb5.file)
